@@ -5,6 +5,8 @@ The real ModbusTcpClient (socket framer and RTU/ASCII/binary over TCP) and Modbu
 prepend / substitute well-formed frames that belong to another transaction, unit or
 function.  Replies carry values that identify them (unique addresses / values), so the
 monitor can tell which frame the returned object was decoded from."""
+import json
+
 from .. import adapters as A
 from .. import gen
 from .. import repo
@@ -153,6 +155,13 @@ def regions(kind, framing, unit, m, own_frame, foreign):
     return out
 
 
+def _snapshot(obj):
+    try:
+        return (obj.unit_id, obj.transaction_id, repr(A.extract(obj)))
+    except Exception as e:  # noqa
+        return ('unreadable', repr(e))
+
+
 def run_history(run, case):
     """one client, a history of transactions; returns number of transactions that violated"""
     if case.get('defaults_unit') and not case.get('_inner'):
@@ -171,6 +180,7 @@ def run_history(run, case):
     repo.reset_globals()
     bad = 0
     poisoned = False
+    kept = []
     with IO.installed(env):
         client = IO.make_client(kind, timeout=1.0)
         if case.get('tid_start') is not None:
@@ -230,10 +240,27 @@ def run_history(run, case):
                     ok, why = False, 'returned object carries tid %r, request %r' % (result.transaction_id, req.transaction_id)
                 elif framing in ('rtu', 'ascii', 'binary') and result.unit_id != unit and unit not in (0, 255):
                     ok, why = False, 'returned object carries unit %r, request %r' % (result.unit_id, unit)
+            # what earlier calls returned stays what it was: a later transaction neither hands out the same object again nor rewrites
+            # the ids / fields of an object the application already holds
+            if cls == 'own' and ok:
+                for j, obj, snap in kept:
+                    now = _snapshot(obj)
+                    if obj is result:
+                        ok, why = False, 'returned the very object that transaction %d had returned' % j
+                    elif now != snap:
+                        ok, why = False, 'the object returned by transaction %d changed afterwards: %r -> %r' % (j, snap, now)
+                    if not ok:
+                        cls = 'other:earlier-result-touched'
+                        break
+                kept.append((i, result, _snapshot(result)))
+                del kept[:-6]
+                run.count('earlier_results_rechecked')
             # bytes left unread poison the next transaction on TCP-family clients (C13 finding)
             conn = env.conns[-1] if env.conns else None
-            poisoned = bool(conn and conn.available()) or (poisoned and cls != 'own')
-            if conn is not None and not conn.available() and cls == 'own':
+            # (segments still in flight count too: a poisoned client returns before the late half of a split reply has arrived,
+            # and that half then lands in a later transaction - virtual time advances only by microseconds per operation)
+            poisoned = bool(conn and (conn.available() or conn.in_flight())) or (poisoned and cls != 'own')
+            if conn is not None and not conn.available() and not conn.in_flight() and cls == 'own':
                 poisoned = False
             if ok:
                 continue
@@ -273,6 +300,8 @@ def gen_case(r, kind, ntx, tid_start=None, clean_only=False):
     regfile = P.lazy_regfile()
     for n in range(ntx):
         m = gen_request(r, n)
+        if txs and r.random() < 0.2:
+            m = json.loads(json.dumps(txs[-1]['m'])) if 'records' not in txs[-1]['m'] else m      # polling: the same request again (byte-identical replies)
         own = P.conformant_reply(regfile, m) or {'dir': RSP, 'fc': 3, 'registers': [1]}
         beh, foreign = make_script(r, kind, unit, own) if not clean_only else ({'kind': r.choice(['own', 'own', 'exception']), 'code': 2}, None)
         txs.append({'m': m, 'behaviour': beh, 'foreign': foreign})
